@@ -545,7 +545,7 @@ class Session(object):
                 p = subprocess.run(["/usr/bin/cvc5", "--tlimit=%d" % budget_ms, "--enum-inst", path],
                                    capture_output=True, text=True, timeout=budget_ms / 1000.0 + 5)
                 out = (p.stdout or "").strip().split("\n")[0]
-                return out or "error"
+                return out or ((p.stderr or "").strip().split("\n")[0][:80]) or "no answer"
             finally:
                 os.unlink(path)
         except Exception as e:
